@@ -180,11 +180,23 @@ theorem fold_rolesOk (f : Val → Val → Val) (start : Val) (maxlabel : Nat) (v
       subst hl
       show 1 < 2; decide
 
+theorem stS_ok (ar : Nat × Nat) (a : Nat) (i : Int) (h1 : a < ar.2) (h2 : 2 < ar.2) :
+    (stS a i).rolesOk ar = true := by
+  apply rolesOk_mk _ _ _ _ _ h1
+  intro l hl
+  simp only [List.mem_singleton] at hl
+  subst hl
+  exact h2
+
 theorem findLog_ok : ∀ (fuel : Nat) (par : Array Int) (i : Nat),
     ∀ r ∈ findLog fuel par i, r.rolesOk (1, 4) = true := by
   intro fuel
   induction fuel with
-  | zero => intro par i r hr; simp [findLog] at hr
+  | zero =>
+    intro par i r hr
+    simp only [findLog, List.mem_singleton] at hr
+    subst hr
+    exact rolesOk_mk _ _ _ _ _ (by decide) (by intro l hl; simp at hl)
   | succ fuel ih =>
     intro par i r hr
     unfold findLog at hr
@@ -196,11 +208,7 @@ theorem findLog_ok : ∀ (fuel : Nat) (par : Array Int) (i : Nat),
       rcases hr with (rfl | hr) | rfl
       · exact rdS_ok _ _ _ _ (by decide) (by decide)
       · exact ih _ _ r hr
-      · apply wrS_ok _ _ _ _ _ (by decide)
-        intro l hl
-        simp only [List.mem_singleton] at hl
-        subst hl
-        show 2 < 4; decide
+      · exact stS_ok _ _ _ (by decide) (by decide)
 
 theorem joinLog_ok (fuel : Nat) (par : Array Int) (i j : Nat) :
     ∀ r ∈ joinLog fuel par i j, r.rolesOk (1, 4) = true := by
@@ -209,11 +217,39 @@ theorem joinLog_ok (fuel : Nat) (par : Array Int) (i j : Nat) :
   rcases hr with (hr | hr) | rfl
   · exact findLog_ok _ _ _ r hr
   · exact findLog_ok _ _ _ r hr
-  · apply wrS_ok _ _ _ _ _ (by decide)
-    intro l hl
-    simp only [List.mem_singleton] at hl
-    subst hl
-    show 2 < 4; decide
+  · exact stS_ok _ _ _ (by decide) (by decide)
+
+theorem renumLog_ok : ∀ (vs : List Int) (seen : List (Int × Int)) (next : Int) (i : Nat),
+    ∀ r ∈ renumLog seen next i vs, r.rolesOk (1, 4) = true := by
+  intro vs
+  induction vs with
+  | nil => intro seen next i r hr; simp [renumLog] at hr
+  | cons v vs ih =>
+    intro seen next i r hr
+    simp only [renumLog, List.mem_cons] at hr
+    rcases hr with rfl | hr
+    · exact rdS_ok _ _ _ _ (by decide) (by decide)
+    · have hown : ∀ (d : Nat) (doff : Int) (a : Nat) (off : Int) (op : List Val → Val), d < 4 → a < 4 →
+          RStep.rolesOk (1, 4) ⟨d, doff, [⟨.own a, off⟩], op⟩ = true := by
+        intro d doff a off op hd ha
+        apply rolesOk_mk _ _ _ _ _ hd
+        intro l hl
+        simp only [List.mem_singleton] at hl
+        subst hl
+        exact ha
+      cases hl : seen.lookup v with
+      | some l =>
+        simp only [hl, List.mem_cons] at hr
+        rcases hr with rfl | hr
+        · exact hown _ _ _ _ _ (by decide) (by decide)
+        · exact ih _ _ _ r hr
+      | none =>
+        simp only [hl, List.mem_append, List.mem_cons, List.mem_nil_iff, or_false] at hr
+        rcases hr with (rfl | rfl | rfl) | hr
+        · exact hown _ _ _ _ _ (by decide) (by decide)
+        · exact hown _ _ _ _ _ (by decide) (by decide)
+        · exact hown _ _ _ _ _ (by decide) (by decide)
+        · exact ih _ _ _ r hr
 
 theorem scanPixelLog_ok (m : Mode) (shape : List Nat) (offs : List (List Int)) (fuel : Nat)
     (par : Array Int) (i : Nat) : ∀ r ∈ scanPixelLog m shape offs fuel par i, r.rolesOk (1, 4) = true := by
@@ -237,8 +273,8 @@ theorem scanPixelLog_ok (m : Mode) (shape : List Nat) (offs : List (List Int)) (
 theorem label_rolesOk (m : Mode) (shape : List Nat) (data : List Int) (vBc : C08.View) (bc : Array Int) :
     ∀ r ∈ labelRaw m shape data vBc bc, r.rolesOk (1, 4) = true := by
   intro r hr
-  simp only [labelRaw, List.mem_append, List.mem_map, List.mem_flatMap] at hr
-  rcases hr with (((⟨i, _, rfl⟩ | hr) | hr) | hr) | ⟨i, _, hr⟩
+  simp only [labelRaw, List.mem_append, List.mem_map] at hr
+  rcases hr with ((((⟨i, _, rfl⟩ | hr) | hr) | hr) | hr) | hr
   · apply rolesOk_mk _ _ _ _ _ (by decide)
     intro l hl
     simp only [List.mem_singleton] at hl
@@ -250,7 +286,7 @@ theorem label_rolesOk (m : Mode) (shape : List Nat) (data : List Int) (vBc : C08
     exact scanPixelLog_ok _ _ _ _ _ _ r' hr'
   · refine logFold_forall (fun r => r.rolesOk (1, 4) = true) _ _ ?_ _ _ r hr
     intro s x r' hr'
-    simp only [List.mem_cons] at hr'
+    simp only [compressLog, List.mem_cons] at hr'
     rcases hr' with rfl | hr'
     · exact rdS_ok _ _ _ _ (by decide) (by decide)
     · by_cases h2 : s.getD x (-1) = -1
@@ -259,18 +295,9 @@ theorem label_rolesOk (m : Mode) (shape : List Nat) (data : List Int) (vBc : C08
         exact findLog_ok _ _ _ r' hr'
   · simp only [List.mem_cons, List.mem_nil_iff, or_false] at hr
     rcases hr with rfl | rfl
-    · apply wrS_ok _ _ _ _ _ (by decide)
-      intro l hl
-      simp only [List.mem_cons, List.mem_nil_iff, or_false] at hl
-      rcases hl with rfl | rfl
-      · show 0 < 4; decide
-      · show 3 < 4; decide
-    · apply wrS_ok _ _ _ _ _ (by decide)
-      intro l hl
-      simp only [List.mem_cons, List.mem_nil_iff, or_false] at hl
-      rcases hl with rfl | rfl
-      · show 0 < 4; decide
-      · show 3 < 4; decide
+    · exact rolesOk_mk _ _ _ _ _ (by decide) (by intro l hl; simp at hl)
+    · exact rolesOk_mk _ _ _ _ _ (by decide) (by intro l hl; simp at hl)
+  · exact renumLog_ok _ _ _ _ r hr
 
 theorem wsInitLog_ok (vS vM : C08.View) (markers : Img Int) (st : C04.MSt) (i : Nat) :
     ∀ r ∈ wsInitLog vS vM markers st i, r.rolesOk (3, 6) = true := by
